@@ -131,9 +131,13 @@ impl<T: Eq + Hash> FrequentItemsSketch<T> {
         Self::with_lg_map_sizes(lg_max_map_size, LG_MIN_MAP_SIZE)
     }
 
-    /// Returns true if the sketch is empty.
+    /// Returns true if the sketch is empty, i.e. it has not been offered any weight.
+    ///
+    /// A sketch whose purge removed every counter still carries its stream weight and its
+    /// error offset: it is not empty, must not be skipped by `merge` and must not serialize
+    /// as the empty image.
     pub fn is_empty(&self) -> bool {
-        self.hash_map.num_active() == 0
+        self.stream_weight == 0
     }
 
     /// Returns the number of active items being tracked.
